@@ -70,6 +70,7 @@ def gen_plan(rng: random.Random, tier: str) -> dict:
     steps = []
     t = 0.05
     p_stall = rng.choice([0.0, 0.0, 0.04, 0.1])
+    p_bad = rng.choice([0.0, 0.0, 0.15])
     for r in cfg["regions"][0]:
         steps.append({"at": t, "op": "ucc", "v": 0, "r": r})
         t = round(t + 0.01, 4)
@@ -91,6 +92,13 @@ def gen_plan(rng: random.Random, tier: str) -> dict:
             k += 1
             steps.append({"at": t, "op": "inject", "r": r, "dir": rng.choice(["out", "in"]),
                           "reliable": rng.random() < 0.6, "via": rng.choice(["send", "send_reliable"]), "tag": k})
+            if rng.random() < 0.2:
+                # whoever awaited the send gives up (an outer timeout cancels the future) while the packet is unacked
+                steps[-1]["abandon_after"] = rng.choice([0.0, 0.05, round(resend_every * 1.5, 3)])
+            if rng.random() < p_bad:
+                # somebody asks the circuit to send something that cannot be encoded
+                steps.append({"at": t, "op": "badsend", "v": 0, "r": r, "dir": rng.choice(["out", "in"]),
+                              "reliable": rng.random() < 0.7})
         elif x < p_inject + p_ack:
             who = rng.choice(["vack", "sack"])
             steps.append({"at": t, "op": who, "v": 0, "r": r, "n": rng.randint(1, 4), "acks": rng.choice([0, 0, 1, 2]),
@@ -575,6 +583,18 @@ def run_plan(plan: dict) -> RunResult:
                 # never let an un-awaited failure reach the loop's exception handler noisily
                 fut.add_done_callback(lambda f: f.exception() if not f.cancelled() else None)
                 oracle.register_operator_injection(st["dir"], far, msg.packet_id, 0, b"", loop.time(), fut)
+                if st.get("abandon_after") is not None:
+                    key_ = (far, st["dir"], msg.packet_id)
+
+                    def _abandon(fut=fut, key_=key_):
+                        inj_ = oracle.injections.get(key_)
+                        if fut.done() or inj_ is None:
+                            return
+                        res.fault("awaiter_gave_up")
+                        fut.cancel()
+                        inj_.future = None        # nobody is waiting any more: nothing is asked of the future itself
+                        inj_.abandoned = True
+                    loop.call_later(st["abandon_after"], _abandon)
         driver.ops["inject"] = op_inject
 
         driver.schedule(plan["steps"])
